@@ -52,6 +52,7 @@ type point struct {
 	Vars   string   `json:"vars"`
 	Reads  []string `json:"reads,omitempty"`  // package-level variables the statement reads (directly or through a local alias)
 	Writes []string `json:"writes,omitempty"` // package-level variables the statement writes
+	Init   bool     `json:"in_init,omitempty"` // inside a package init function (runs before any library call)
 }
 
 func main() {
@@ -207,7 +208,13 @@ func run(repo, out string) error {
 				}
 				tnt := localTaint(fd.Body, p, imports)
 				curSrc = taintSources(fd.Body, p, imports, tnt)
+				first := len(points)
 				instrBlock(fset, fd.Body, p, imports, tnt, &nextID, &points, fn, &inserted)
+				if fd.Recv == nil && fd.Name.Name == "init" {
+					for k := first; k < len(points); k++ {
+						points[k].Init = true
+					}
+				}
 			}
 			syncUsed := redirectSync(f)
 			if inserted == 0 && !syncUsed {
